@@ -43,14 +43,14 @@ func C17(r *vf.Run) {
 		r.CellN("roundtrip:colours", 1<<16)
 		r.CellN("luminosity:colours", 1<<16)
 		// pack-unpack over all 2^24 triples
-		var bad int64
+		var bad atomic.Int64
 		vf.Parallel(runtime.NumCPU(), 256, func(w, ri int) {
 			for g := 0; g < 256; g++ {
 				for b := 0; b < 256; b++ {
 					c := color15.ToColor15(uint8(ri), uint8(g), uint8(b))
 					xr, xg, xb := c.ToRGB()
 					if int(xr) != ri&31 || int(xg) != g&31 || int(xb) != b&31 || c&0x8000 != 0 {
-						if atomic.AddInt64(&bad, 1) < 4 {
+						if bad.Add(1) < 4 {
 							r.Fail("pack-unpack", fmt.Sprintf("ToRGB(ToColor15(%d,%d,%d))=(%d,%d,%d) colour %#04x", ri, g, b, xr, xg, xb, c), nil)
 						}
 					}
